@@ -211,6 +211,7 @@ def run_t1(ctx, groups=("C01",)):
     cov = ctx.coverage.setdefault("t1", {"regenerated_from": vlib.REPO, "groups": {},
                                          "known_false_alarms": KNOWN_FALSE_ALARMS})
     tmps = {}
+    restore = {}
     proved = True
     try:
         for g in groups:
@@ -241,6 +242,8 @@ def run_t1(ctx, groups=("C01",)):
                 old = open(gen, "rb").read() if os.path.exists(gen) else None
                 if old != new:
                     os.replace(tmp, gen)
+                    if vlib.REPO != "/repo" and old is not None:
+                        restore[gen] = old      # a scratch tree's definitions must not be left behind (the files are tracked)
                 cov["groups"][g] = {
                     "generated": os.path.relpath(gen, vlib.VERIF),
                     "generated_sha256": hashlib.sha256(new).hexdigest()[:16],
@@ -282,6 +285,12 @@ def run_t1(ctx, groups=("C01",)):
                         proved = proved and ok
             finally:
                 del ctx.lake
+                # still under the lock: put /repo's definitions back after a run against a scratch worktree (VERIF_REPO),
+                # so that the tracked Gen/Leaf*.lean always describe /repo between runs
+                for gen, content in restore.items():
+                    with open(gen + ".restore.tmp", "wb") as fh:
+                        fh.write(content)
+                    os.replace(gen + ".restore.tmp", gen)
         finally:
             fcntl.flock(lock, fcntl.LOCK_UN)
             lock.close()
